@@ -1,6 +1,7 @@
 package vrun
 
 import (
+	"bytes"
 	"fmt"
 	"strings"
 	"testing"
@@ -134,6 +135,18 @@ func genFirstPackets(r *spec.Rand, authn string) []firstPacket {
 			}
 		}
 	}
+	// --- large but legal CONNECTs (a will message / password of up to 64 KiB arrives in several reads)
+	for _, sz := range []int{5000, 65535} {
+		p := &rc.Packet{Type: rc.CONNECT, ProtoName: "MQTT", Level: 4, CleanSession: true, KeepAlive: 60, ClientID: []byte("cid-big"),
+			HasWill: true, WillTopic: []byte("will/c11/" + strings.Repeat("t", 300)), WillMsg: bytes.Repeat([]byte{'w'}, sz), HasUser: true, User: []byte("good"), HasPass: true, Pass: []byte("pw")}
+		fp := firstPacket{desc: fmt.Sprintf("CONNECT MQTT/4 big will=%d", sz), bytes: rc.Encode(p), cid: "cid-big", isClean: true}
+		if credOK("good", "pw") {
+			fp.accept = true
+		} else {
+			fp.codes = []byte{4}
+		}
+		fps = append(fps, fp)
+	}
 	// --- malformed CONNECTs
 	base := rc.Encode(&rc.Packet{Type: rc.CONNECT, ProtoName: "MQTT", Level: 4, CleanSession: true, KeepAlive: 60, ClientID: []byte("mal"), HasWill: true, WillTopic: []byte("will/c11"), WillMsg: []byte("w"), HasUser: true, User: []byte("good"), HasPass: true, Pass: []byte("pw")})
 	mal := func(desc string, b []byte) {
@@ -164,8 +177,41 @@ func genFirstPackets(r *spec.Rand, authn string) []firstPacket {
 	return fps
 }
 
-func c11Run(t *testing.T, authn string, fp firstPacket, idx int) {
-	params := map[string]interface{}{"authenticator": authn, "first": fp.desc, "bytes": hex(fp.bytes)}
+// c11Pieces cuts a first packet the way a network may: frag 0 = one write, 1 = two
+// pieces, 2 = byte by byte (up to 80 bytes) or three pieces; the broker has consumed
+// each piece (every goroutine parked) before the next one is written.
+func c11Pieces(b []byte, frag, idx int) [][]byte {
+	if frag == 0 || len(b) < 2 {
+		return [][]byte{b}
+	}
+	if frag == 1 {
+		cut := 1 + (idx*7919)%(len(b)-1)
+		return [][]byte{b[:cut], b[cut:]}
+	}
+	if len(b) <= 80 {
+		var ps [][]byte
+		for i := range b {
+			ps = append(ps, b[i:i+1])
+		}
+		return ps
+	}
+	c1 := 1 + (idx*104729)%(len(b)-1)
+	c2 := 1 + (idx*1299709)%(len(b)-1)
+	if c1 > c2 {
+		c1, c2 = c2, c1
+	}
+	if c1 == c2 {
+		return [][]byte{b[:c1], b[c1:]}
+	}
+	return [][]byte{b[:c1], b[c1:c2], b[c2:]}
+}
+
+func c11Run(t *testing.T, authn string, fp firstPacket, idx, frag int) {
+	hx := hex(fp.bytes)
+	if len(hx) > 400 {
+		hx = hx[:400] + "..."
+	}
+	params := map[string]interface{}{"authenticator": authn, "first": fp.desc, "bytes": hx, "pieces": len(c11Pieces(fp.bytes, frag, idx))}
 	bubble(t, "c11", params, func(cl *cleanup) {
 		w := newWorld(worldCfg{BufferSize: 16384, ConnectTimeout: 2, Authenticator: authn})
 		cl.add(w.shutdown)
@@ -191,7 +237,16 @@ func c11Run(t *testing.T, authn string, fp firstPacket, idx int) {
 			rc.Encode(&rc.Packet{Type: rc.PUBLISH, Topic: []byte("tail/retained"), Retain: true, Payload: spec.MakePayload(9001, 0, 40)}),
 			rc.Encode(&rc.Packet{Type: rc.PUBLISH, Topic: []byte("tail/plain"), Payload: spec.MakePayload(9002, 0, 40)}),
 		}
-		c.Send(fp.bytes)
+		pieces := c11Pieces(fp.bytes, frag, idx)
+		for k, pc := range pieces {
+			c.Send(pc)
+			if k < len(pieces)-1 {
+				settle()
+			}
+		}
+		if len(pieces) > 1 {
+			out.Count("c11.fragmented_first_packets", 1)
+		}
 		stream := append([]byte{}, fp.bytes...)
 		for _, b := range tail {
 			c.Send(b)
@@ -307,7 +362,7 @@ func c11Run(t *testing.T, authn string, fp firstPacket, idx int) {
 			f := strings.Fields(fp.desc)
 			kind = strings.Join(f[:3], " ")
 		}
-		out.Class(fmt.Sprintf("%s/%s/%s", authn, kind, res))
+		out.Class(fmt.Sprintf("%s/%s/%s/f%d", authn, kind, res, frag))
 		if idx%97 == 0 {
 			out.Sample("c11", 4, map[string]interface{}{"authenticator": authn, "first": fp.desc, "answer": res})
 		}
@@ -319,16 +374,16 @@ func TestC11(t *testing.T) {
 	for _, authn := range []string{"mockSuccess", "mockFailure", "vauth"} {
 		r := spec.NewRand(caseSeed("c11", 0))
 		fps := genFirstPackets(r, authn)
-		reps := 1
+		reps := 3 // whole, two pieces, byte by byte / three pieces
 		for rep := 0; rep < reps; rep++ {
 			for k, fp := range fps {
 				i++
-				id := fmt.Sprintf("c11/%s/%d", authn, k)
+				id := fmt.Sprintf("c11/%s/%d/f%d", authn, k, rep)
 				if !mine(i) || !out.Only(id) {
 					continue
 				}
 				out.Begin(id, 0, map[string]interface{}{"first": fp.desc})
-				c11Run(t, authn, fp, i)
+				c11Run(t, authn, fp, i, rep)
 				out.End()
 			}
 		}
